@@ -96,12 +96,16 @@ func main() {
 			return 40 * time.Second
 		},
 		Extra: func(tier string, r *vx.Report) {
+			summarizeC(r)
+			// the server-level workers run while the coordinator does the adapter-level part
+			joinB := func() {}
+			if strings.Contains(parts(), "b") {
+				joinB = partB(tier, r)
+			}
 			if strings.Contains(parts(), "a") {
 				partA(tier, r)
 			}
-			if strings.Contains(parts(), "b") {
-				partB(tier, r)
-			}
+			joinB()
 		},
 		Assumptions: []string{
 			"adapter level: a socket is in the namespace while the adapter has an entry for it (AddAll with no room adds it, DeleteAll removes it, Delete of its last room keeps it); the harness sockets' Join/Leave/Disconnect call AddAll/Delete/DeleteAll like the real server socket does",
